@@ -5,3 +5,7 @@
 pub mod sink;
 #[cfg(kani)]
 mod c13;
+#[cfg(kani)]
+pub mod vals;
+#[cfg(kani)]
+mod c10;
